@@ -12,6 +12,7 @@ import (
 	"os"
 	"strings"
 
+	"github.com/taurusgroup/multi-party-sig/internal/round"
 	"github.com/taurusgroup/multi-party-sig/pkg/party"
 	"github.com/taurusgroup/multi-party-sig/pkg/protocol"
 	"github.com/taurusgroup/multi-party-sig/protocols/doerner"
@@ -214,6 +215,23 @@ func main() {
 	}
 	evals += len(table)
 	realized += len(table)
+	// the per-party Fiat-Shamir context: different parties of one session never share a context, also for
+	// identifiers that differ only by trailing NUL bytes, a shared prefix or case
+	ctxIDs := []party.ID{"a", "a\x00", "a\x00\x00", "ab", "b", "a ", "A", "\x00a"}
+	if helper, err := round.NewSession(round.Info{ProtocolID: "verif/ctx", FinalRoundNumber: 2, SelfID: "a", PartyIDs: ctxIDs, Threshold: 1, Group: protos.Group}, []byte("sid"), nil); err == nil {
+		seenCtx := map[string]party.ID{}
+		for _, id := range ctxIDs {
+			k := hex.EncodeToString(helper.HashForID(id).Sum())
+			if other, ok := seenCtx[k]; ok {
+				fails = append(fails, failure{fmt.Sprintf("%q / %q", other, id), "party-context-collision", fmt.Sprintf("parties %q and %q of one session get the same Fiat-Shamir context: a proof made by one verifies for the other", other, id)})
+			}
+			seenCtx[k] = id
+			evals++
+			realized++
+		}
+	} else {
+		fails = append(fails, failure{"ctx", "start-fails", err.Error()})
+	}
 	res := map[string]interface{}{"evaluations": evals, "realized": realized, "failures": fails, "samples": samples, "protocols": len(table)}
 	b, _ := json.MarshalIndent(res, "", " ")
 	if *out != "" {
